@@ -112,8 +112,21 @@ def path_csi(ctx, job, box):
     return oracle(run, op, o, cols, lines)
 
 
+def path_parser(ctx, job, box):
+    cols, lines = job.params['geom']
+    fin = job.params['final']
+    run = GridRun(ctx, box, cols, lines, cursor='pick', tabstops=0, titles='none', saved_columns='none', extra_mode=False)
+    o = feed_csi(run, ctx, fin, job.params['ndigits'])
+    if run.outcome == 'panic':
+        return run.panic_check()
+    return oracle(run, FINALS[fin], o, cols, lines)
+
+
 def jobs(tier):
     js = []
+    for fin in FINALS:
+        for nd in (0, 1, 2):
+            js.append(Job('parser/%s/%d/2x2' % (fin, nd), path_parser, final=fin, ndigits=nd, geom=(2, 2), prop=PROP))
     for g in geoms(tier):
         for op in OPS:
             js.append(Job('api/%s/%dx%d' % (op, g[0], g[1]), path_api, op=op, geom=g, prop=PROP))
